@@ -302,6 +302,64 @@ func (m *monC13) AfterBlock(c *Chain, req *abci.RequestFinalizeBlock, res *abci.
 		w.Case("C13", fmt.Sprintf("tx kind=%s phase=%s %s", strings.Join(keysOf(kinds), "+"), w.Phase(a), rel))
 		w.Sample("C13", map[string]any{"height": req.Height, "consumer": a, "kinds": keysOf(kinds), "keys_changed": len(changes), "other_consumers": n - 1})
 	}
+	// ---- EndBlock pruning is per consumer: an entry of a consumer's key index (prefix 23) disappears in EndBlock only together
+	// with one of that consumer's own due prune entries (prefix 41) listing the address, or with its validator's removal
+	{
+		ech := diffSnap(m.preEnd, m.postEnd)
+		consumed := map[string]map[string]bool{}
+		for _, ch := range ech {
+			if len(ch.Key) > 0 && ch.Key[0] == 41 && ch.New == nil {
+				o := ownerOfKey(ch.Key, ch.Old)
+				var al providertypes.AddressList
+				if o.known && al.Unmarshal(ch.Old) == nil {
+					if consumed[o.owner] == nil {
+						consumed[o.owner] = map[string]bool{}
+					}
+					for _, a := range al.Addresses {
+						consumed[o.owner][consHex(a)] = true
+					}
+				}
+			}
+		}
+		// ... and a consumed prune entry takes the listed addresses out of that same consumer's index
+		for id, set := range consumed {
+			for a := range set {
+				w.Eval("C13")
+				key := providertypes.ValidatorsByConsumerAddrKey(id, providertypes.NewConsumerConsAddress(hexToBytes(a)))
+				if _, still := m.postEnd[string(key)]; still {
+					w.Violation("C13", "prune-entry-consumed-but-index-entry-of-that-consumer-kept", map[string]any{"consumer": id, "address": a, "height": req.Height})
+				}
+			}
+		}
+		for _, ch := range ech {
+			if len(ch.Key) == 0 || ch.Key[0] != 23 || ch.New != nil {
+				continue
+			}
+			o := ownerOfKey(ch.Key, ch.Old)
+			if !o.known || len(ch.Key) < 9+len(o.owner) {
+				continue
+			}
+			ca := ch.Key[9+len(o.owner):]
+			w.Eval("C13")
+			switch {
+			case consumed[o.owner][consHex(ca)]:
+				w.Event("C13", "index-entries-pruned-with-their-consumers-own-prune-entry")
+			default:
+				if _, err := w.P.PApp.StakingKeeper.GetValidatorByConsAddr(c.Ctx(), sdk.ConsAddress(ch.Old)); err != nil {
+					w.Event("C13", "key-assignments-deleted-with-their-removed-validator")
+					continue
+				}
+				var others []string
+				for id, set := range consumed {
+					if set[consHex(ca)] {
+						others = append(others, id)
+					}
+				}
+				w.Violation("C13", "key-index-entry-pruned-without-own-prune-entry", map[string]any{"consumer": o.owner, "address": consHex(ca), "height": req.Height,
+					"prune_entries_consumed_of": others})
+			}
+		}
+	}
 	// ---- EndBlock segment of non-epoch blocks: only governance-executed updates, pruning and validator removal may touch consumers
 	if !m.epoch {
 		govConcerned := map[string]bool{}
